@@ -40,6 +40,8 @@ def path_cs(rel, g):
 
 def placements(case, g):
     dp, rp = c03.DPLACES[case["dplace"]], c03.RPLACES[case["rplace"]]
+    if case["dplace"] in c03.EXPR_PLACES:          # the documented rule applies to what the expression evaluates to
+        dp = 'export_to = "%s"' % c03.EXPR_PLACES[case["dplace"]]
     if case["dplace"] == "same_as_root" or case["rplace"] == "same_as_dep":
         dp = rp = '#[ts(export_to = "both§.ts")]'
     if case["dplace"] == "same_dotdot":
